@@ -64,6 +64,10 @@ Inductive out :=
     (* value at x of a linear interpolator over [knots]: the model locates x (Model/C09_Interp.locate: segment k,
        weight w) and blends this point's model values times sa (weight 1-w) with the model values [other] of knot
        k+1 times sb; sa = sb = 1 for fractions, the element densities of the two knots for from_elementdensity *)
+| OLerp2 (slack : Q) (xs ys : list Q) (x y : Q) (i j : nat) (f10 f01 f11 : list Q) (v : list Q)
+    (* value at (x, y) of a bilinear interpolator of fractions over the grid xs x ys: the model locates the cell (i, j)
+       and the weights, and blends this point's model values (corner i, j) with the model values of the corners
+       (i+1, j), (i, j+1), (i+1, j+1) *)
 | OMatrix (rows : list (list Q)) (rhs : list Q).      (* the arguments handed to lsq_linear *)
 
 Definition absle (a b tol : Q) : bool := Qle_bool (Qabs (a - b)) tol.
@@ -113,6 +117,19 @@ Definition check_out (p : point) (f : list Q) (tol0 : Q) (o : out) : bool :=
                       (combine f other) v
           && Nat.eqb (length other) (length f) && Nat.eqb (length v) (length f)
       | None => false
+      end
+  | OLerp2 slack xs ys x y i j f10 f01 f11 v =>
+      match locate xs x 0, locate ys y 0 with
+      | Some (i', u), Some (j', w) =>
+          let tmax := fold_right (fun t m => if Qle_bool m t then t else m) tol0 [base_tol f10; base_tol f01; base_tol f11] in
+          let tol := tmax + slack in
+          Nat.eqb i' i && Nat.eqb j' j
+          && forallb (fun c => absle (blend (blend (fun _ => nth c f 0) (fun _ => nth c f10 0) u)
+                                            (blend (fun _ => nth c f01 0) (fun _ => nth c f11 0) u) w O) (nth c v 0) tol)
+                     (seq 0 (length f))
+          && Nat.eqb (length f10) (length f) && Nat.eqb (length f01) (length f) && Nat.eqb (length f11) (length f)
+          && Nat.eqb (length v) (length f)
+      | _, _ => false
       end
   | OMatrix rows rhs =>
       let m := balance_matrix (pZ p) (rate0 (p_ion p)) (rate1 (p_rec p)) (option_map rate1 (p_cx p)) (p_nd p) (p_ne p) in
